@@ -57,6 +57,9 @@ class Ambiguous(Exception):
     pass
 
 
+_LETTER = {"pending": "P", "assigned": "A", "running": "R", "completed": "C", "failed": "F", "suspending": "S"}
+
+
 class World:
     def __init__(self, case, choices=()):
         w = case["world"]
@@ -105,6 +108,7 @@ class World:
         self.trace = []              # abbreviated observations for evidence samples
         self.log = sut.TransitionLog()
         self.log_pos = 0
+        self.op_hist = {}          # id(operator) -> compressed accepted-transition string (evidence: multi-step life cycles)
         self.step_keys = []
         self.step_results_expected = []
 
@@ -789,10 +793,36 @@ class World:
                     # parents' current state is at least as advanced as at the time of the event;
                     # completed is final, so a non-completed parent now was non-completed then
                     self.problem(("C01",), "started-before-parent", "operator entered RUNNING with a parent that has not completed")
+            if ok:
+                h = self.op_hist.get(id(op), "")
+                if len(h) < 64:
+                    self.op_hist[id(op)] = h + _LETTER.get(to, "?")
             self.ev("transitions_logged")
+
+    def lifecycle_counts(self):
+        """Evidence only: which multi-step operator life cycles this script really produced
+        (faults that need fail -> retry -> suspend -> resume chains hide in the long ones)."""
+        for h in self.op_hist.values():
+            nf, ns = h.count("F"), h.count("S")
+            if nf >= 2:
+                self.ev("lifecycle:operator_failed_twice_or_more")
+            if nf >= 2 and h.endswith("C"):
+                self.ev("lifecycle:operator_completed_after_two_or_more_failures")
+            if ns >= 2:
+                self.ev("lifecycle:operator_suspended_twice_or_more")
+            if nf and ns:
+                self.ev("lifecycle:operator_both_failed_and_suspended")
+                if "F" in h[h.index("S"):]:
+                    self.ev("lifecycle:operator_failed_after_a_resume")
+                if "S" in h[h.index("F"):]:
+                    self.ev("lifecycle:operator_suspended_after_a_retry")
+                if h.endswith("C"):
+                    self.ev("lifecycle:operator_completed_after_failure_and_suspension")
+        self.op_hist = {}
 
     def final_checks(self):
         self.check_translog()
+        self.lifecycle_counts()
         for mc in self.containers:
             if mc.cid is not None and self.results_seen.get(mc.cid, 0) == 0 and mc.status in ("ok", "failed"):
                 self.problem(("C09",), "ended-without-result", f"container {mc.cid} ended {mc.status} without a result")
